@@ -33,7 +33,11 @@ func logPoint() {
 
 func (simLogger) Errorf(string, ...interface{}) { logPoint() }
 func (simLogger) Infof(string, ...interface{})  { logPoint() }
-func (simLogger) Debugf(string, ...interface{}) {}
+func (simLogger) Debugf(string, ...interface{}) {
+	if r := activeRun.Load(); r != nil && r.debugYield {
+		r.parkInLogger()
+	}
+}
 func (simLogger) Print(...interface{})          { logPoint() }
 func (simLogger) Printf(string, ...interface{}) { logPoint() }
 
